@@ -24,6 +24,14 @@ import (
 
 var errInjected = errors.New("injected transport error")
 
+var errWrappedEOF = fmt.Errorf("tunnel closed by peer: %w", io.EOF)
+
+// c05netErr is a transport error of a type of its own that reports itself as an end of stream to errors.Is.
+type c05netErr struct{}
+
+func (*c05netErr) Error() string        { return "link layer: stream ended" }
+func (*c05netErr) Is(target error) bool { return target == io.EOF }
+
 // scriptReader serves a byte stream in prescribed pieces and counts what it delivered.
 type scriptReader struct {
 	data      []byte
@@ -147,13 +155,19 @@ func (e *c05env) run(stream []byte, sr *scriptReader, tag string) (res []rdResul
 		case err != nil && errors.As(err, &re):
 			r.class = 1
 			r.desc = "E:" + err.Error()
-		case err == io.EOF || err == errInjected || (err == io.ErrNoProgress && sr.idleN > 0):
+		case err == io.EOF || err == errInjected || (sr.errVal != nil && err == sr.errVal) || (err == io.ErrNoProgress && sr.idleN > 0):
 			// (io.ErrNoProgress is what the buffered reader makes of a transport that keeps returning nothing: the transport's doing)
 			r.class = 2
 			r.desc = "T:" + err.Error()
 		default:
 			ok = false
 			e.rep.Violation("what=class", fmt.Sprintf("Read returned neither a frame, a frame.ReadError nor the transport's own error: (%v, %v)", fr, err),
+				map[string]interface{}{"stream": vh.Hex(stream), "chunking": tag})
+			return res, ok
+		}
+		if err == io.EOF && sr.pos < len(sr.data) && sr.errVal != nil && sr.errVal != io.EOF {
+			ok = false
+			e.rep.Violation("what=class", fmt.Sprintf("the transport failed with its own error value (%T: %v) and Read returned the bare io.EOF sentinel instead", sr.errVal, sr.errVal),
 				map[string]interface{}{"stream": vh.Hex(stream), "chunking": tag})
 			return res, ok
 		}
@@ -338,7 +352,8 @@ func (e *c05env) idles(stream []byte, frames []*ref.FrameSpec, r *vh.RNG) {
 	// a transport that answers with an error once, at a frame boundary, and then goes on delivering (a log file that is
 	// still growing reports io.EOF until more has been written; a one-off I/O error): the error is passed on, and the
 	// frames that arrive afterwards are returned like any others
-	for _, ev := range []error{io.EOF, errInjected} {
+	// (the transport's own error value is what comes back: also one that merely WRAPS io.EOF - a tunnel's "peer closed: EOF")
+	for _, ev := range []error{io.EOF, errInjected, errWrappedEOF, &c05netErr{}} {
 		at := bounds[r.Intn(len(bounds))]
 		if at >= len(stream) {
 			at = bounds[0]
